@@ -61,8 +61,12 @@ std::vector<i64> const& anchors()
       39321, 39322,                                                 // 0.6
       1ll<<30, 1ll<<45, 1ll<<46, 1ll<<47, 1ll<<48, 1ll<<31, 1ll<<32, 1ll<<62,
       (1ll<<31)-1, ((1ll<<31)-1)<<16, (1ll<<31)<<16, 16384ll<<16, 46340ll<<16, 46341ll<<16,
-      5898240, 11796480, 17694720, 23592960, 1608, 2670177, 360ll<<16, 180ll<<16 };
+      5898240, 11796480, 17694720, 23592960, 1608, 2670177, 360ll<<16, 180ll<<16,
+      3037000499ll, 3037000500ll, 1518500249ll, 1518500250ll, 4294967296ll, 6074000999ll };   // floor/ceil of sqrt(2^63), sqrt(2^61); sqrt(2^64); sqrt(2^65): where a square leaves the word
     for( int k = 1; k <= 8; ++k ) { v.push_back(PHI*k); v.push_back(PHI*k + PHI2); v.push_back(PHI2*k); }
+    // the word limit divided by the library's own constants (where x * c leaves the word): INT64_MAX / c and 2^63 / c, +1
+    for( i64 c : { 28672ll, 45056ll, 77824ll, 159744ll, 39321ll, 39322ll, 205887ll, 411774ll, 102944ll, 51472ll, 180ll, 360ll, 180ll << 16, 65536ll, 16ll, 39ll } )
+      { v.push_back(INT64_MAX / c); v.push_back(INT64_MAX / c + 1); }
     std::vector<i64> r;
     for( i64 x : v ) { r.push_back(x); r.push_back(-x); }
     std::sort(r.begin(), r.end()); r.erase(std::unique(r.begin(), r.end()), r.end());
